@@ -24,6 +24,7 @@ RULE = ("PCA: every composition of n in 3..7 into an initial batch (>=2) + incre
         "distinct = (model, composition or its length bucket, centred/graph kind, options)")
 ASSUMPTIONS = ["no forgetting (forgetting_factor = 1)", "PCA spectra are well separated; comparison is on the projector onto the principal subspace, not on individual signs"]
 DECIDING_TAPS = ["PCA.increment", "GMRF._increment"]
+REPLAY_PATHS = ['menpo/model/test']      # suite replay (thorough tier): the repository's own tests under these monitors
 SHARDS = {"quick": 8, "thorough": 16}
 
 PDATA = {}     # id(model) -> (model, [chunks], centred)
@@ -107,6 +108,11 @@ class PCAIncrement(taps.Monitor):
         ctx.err("pca_projector_vs_batch", e)
         if e > 1e-6:
             ctx.fail("incremental_principal_subspace_differs_from_batch", cls=cls, mech=mech, err=e)
+
+
+def replay_case_begin():
+    PDATA.clear()
+    gmrfmon.clear()
 
 
 def setup(ctx):
